@@ -518,11 +518,13 @@ fn finish(r: Option<tiny_http_rt::Request>) -> (Option<u64>, u64, Option<tiny_ht
 /// each — and a few that it did receive are answered afterwards.  Then the clients go away and
 /// more than the idle period passes: no thread of the server is left.
 pub fn run_backlog(id: usize, rng: &mut Rng) -> String {
-    let cfg = Config { seed: rng.next(), p_timer: *rng.pick(&[0u64, 0, 30]), p_preempt: *rng.pick(&[0u64, 0, 100]), max_steps: 2_000_000, ..Config::default() };
+    // no injected latency here (`p_timer` lets the clock run ahead of a runnable thread, by any amount):
+    // the scenario measures what is left a fixed time after the clients went away
+    let cfg = Config { seed: rng.next(), p_timer: 0, p_preempt: *rng.pick(&[0u64, 0, 100]), max_steps: 2_000_000, ..Config::default() };
     let conns = *rng.pick(&[1usize, 1, 2, 6, 12, 20]);
     let per = if conns <= 2 { rng.range(9, 30) } else { rng.range(1, 3) };
     let take = *rng.pick(&[0usize, 0, 1, 3]);
-    let ((queued, answered, taken, base, after_drop, after), rep) = sched::run(&cfg, move || {
+    let ((queued, answered, taken, base, after_drop, after, left), rep) = sched::run(&cfg, move || {
         let live = || sched::threads().iter().filter(|(n, st)| (n.starts_with("task_pool.rs") || n.starts_with("lib.rs")) && !matches!(st, TState::Finished)).count();
         let base = live();
         let server = Server::http("127.0.0.1:0").expect("server");
@@ -564,10 +566,25 @@ pub fn run_backlog(id: usize, rng: &mut Rng) -> String {
         // more than the idle period (5 s), twice
         sched::settle(11_000_000_000);
         let after = live();
-        (queued, answered, taken, base, after_drop, after)
+        let left: Vec<String> = sched::threads()
+            .iter()
+            .filter(|(n, st)| (n.starts_with("task_pool.rs") || n.starts_with("lib.rs")) && !matches!(st, TState::Finished))
+            .map(|(n, st)| format!("{}:{:?}", n, st).replace(' ', ""))
+            .collect();
+        if after > 0 && std::env::var("VERIF_DEBUG").is_ok() {
+            let ths = sched::threads();
+            for (i, (n, st)) in ths.iter().enumerate() {
+                if n.starts_with("task_pool.rs") && !matches!(st, TState::Finished) {
+                    for e in sched::events().iter().filter(|e| e.tid == i).rev().take(30).collect::<Vec<_>>().into_iter().rev() {
+                        eprintln!("  t{} @{} {}", e.tid, e.t, e.what);
+                    }
+                }
+            }
+        }
+        (queued, answered, taken, base, after_drop, after, left)
     });
     format!(
-        "srv id={} kind=backlog conns={} n={} taken={} answered={} base={} after_drop={} after={} aborted={} clock={}",
-        id, conns, queued, taken, answered, base, after_drop, after, if rep.aborted { 1 } else { 0 }, rep.clock
+        "srv id={} kind=backlog conns={} n={} taken={} answered={} base={} after_drop={} after={} aborted={} clock={} left={}",
+        id, conns, queued, taken, answered, base, after_drop, after, if rep.aborted { 1 } else { 0 }, rep.clock, left.join(",")
     )
 }
